@@ -136,7 +136,7 @@ def compare_with_model(res, dev, regs, cli_lines, model_tokens, what, flnames={}
         k = kinds[name]
         good = True
         if k == 1:
-            num, den = tok[1:].split("/")
+            num, den = tok[1:].split("#")[0].split("/")
             q = int(num) / int(den)
             mm = re.match(r"^(-?\d+\.\d{6}|NaN|[+-]Inf)", val)
             good = bool(mm) and mm.group(1) not in ("NaN", "+Inf", "-Inf") and abs(float(mm.group(1)) - q) <= 5e-7 + 1e-9 * max(1, abs(q))
